@@ -138,3 +138,93 @@ def exc2(cfg):
         res.floor('increment call sites', 2)
         res.floor('deleters', 4)
     return res
+
+
+def exc4(cfg):
+    """EXC-4: no fault point while ownership is raw"""
+    from ..engine import forward
+    res = RuleResult('EXC-4', 'between taking an object out of its owning unique_ptr (release()) and handing it to its next owner (stored into the tree, wrapped in another owner, installed as the thread\'s QSBR instance) no allocation-capable call and no throw can occur: an exception in that window has nobody to undo the object - a node stays allocated and counted, a qsbr_per_thread stays registered (the thread count and with it the epoch protocol are stuck)')
+    an = effectflow.Effects(cfg, prune_callee=lambda s: any(s.startswith(p) for p in PRUNED))
+    may = an.may_alloc_set()
+    nrel = 0
+    for f in cfg.functions:
+        if not f.blocks or f.basefile not in ('art.hpp', 'olc_art.hpp', 'art_internal_impl.hpp', 'qsbr.hpp', 'qsbr.cpp', 'mutex_art.hpp', 'art_internal.hpp'):
+            continue
+        rel = {id(e): e for b, i, e in f.elements() if e.get('k') == 'call' and e.get('name') == 'release' and (e.get('cls') or '').startswith('std::unique_ptr<unodb::') and not is_assert_elem(e)}
+        if not rel:
+            continue
+        nrel += len(rel)
+        res.functions.add(f.sig)
+        sites = {}
+
+        def holders_in(o, open_):
+            hit = []
+
+            def v(x):
+                if ('tmp', id(x)) in open_:
+                    hit.append(('tmp', id(x)))
+                if x.get('k') == 'ref' and ('var', x.get('did')) in open_:
+                    hit.append(('var', x['did']))
+            f.walk(o, v)
+            return hit
+
+        def transfer(S, blk):
+            out = set()
+            for st in S:
+                open_ = dict(st)      # holder -> release element id
+                for e in blk['elems']:
+                    k = e.get('k')
+                    if id(e) in rel:
+                        open_[('tmp', id(e))] = id(e)
+                        continue
+                    if k == 'decl':
+                        for v in e['vars']:
+                            if 'init' in v:
+                                hs = holders_in(v['init'], open_)
+                                for h in hs:
+                                    src = open_.pop(h)
+                                    if 'unique_ptr' not in (v.get('t') or ''):
+                                        open_[('var', v['did'])] = src      # a raw local now holds it
+                        continue
+                    if k == 'lambda':
+                        for c in e.get('captures', []):
+                            for h in holders_in(c, open_):
+                                src = open_.pop(h)
+                                open_[('tmp', id(e))] = src                  # the closure holds a raw pointer
+                        continue
+                    if k in ('call', 'new', 'throw'):
+                        args = list(e.get('args', [])) + ([e['obj']] if e.get('obj') is not None else [])
+                        consuming = k == 'call' and (effectflow.is_tree_store(f, e) is not None or e.get('name') in ('reset', 'set_instance') or
+                                                     (e.get('ck') == 'ctor' and ('unique_ptr' in (e.get('cls') or '') or 'basic_node_ptr<' in (e.get('cls') or ''))) or
+                                                     ((e.get('callee') or '').startswith(('unodb::in_critical_section<', 'unodb::in_fake_critical_section<', 'unodb::detail::basic_node_ptr<')) and e.get('op') == '='))
+                        if consuming:
+                            closed = False
+                            for a in args:
+                                for h in holders_in(a, open_):
+                                    open_.pop(h, None)
+                                    closed = True
+                            if closed:
+                                continue
+                        if open_ and not is_assert_elem(e):
+                            fault = None
+                            if k == 'throw':
+                                fault = 'throw'
+                            elif e.get('cid') is not None:
+                                cs = f.callee_sig(e)
+                                if cs in may and not any(cs.startswith(p) for p in PRUNED):
+                                    fault = 'call of %s, which may allocate' % sh(cs)[:70]
+                            if fault:
+                                for h, src in open_.items():
+                                    sites.setdefault((src, e.get('loc')), (fault, e.get('loc')))
+                out.add(frozenset(open_.items()))
+            return frozenset(out)
+        forward(f, frozenset([frozenset()]), transfer, None, lambda a, b: a | b, key=lambda s: s)
+        for rid, e in rel.items():
+            mine = [v for (src, loc), v in sites.items() if src == rid]
+            res.ob(not mine, {'rule': 'EXC-4', 'function': sh(f.name)[:100], 'site': fileline(e.get('loc')), 'verdict': 'no fault point in the raw window' if not mine else 'VIOLATION'})
+            for fault, loc in mine[:1]:
+                res.find(f, loc, '%s while the object released from its unique_ptr at %s has no owner yet: if it fails, nothing destroys the object (%s)' % (fault, fileline(e.get('loc')), 'the qsbr_per_thread stays registered: the QSBR thread count is left incremented and epochs stop advancing' if 'qsbr_per_thread' in (e.get('cls') or '') else 'the node is leaked and stays counted in the statistics'),
+                         key='EXC-4:%s' % f.short, config=cfg.name)
+    res.count('release sites', nrel)
+    res.floor('release sites', 12)
+    return res
